@@ -3,6 +3,7 @@ pub mod exec;
 pub mod handler;
 pub mod master;
 pub mod outstation;
+pub mod pair;
 
 use std::future::Future;
 use std::pin::Pin;
